@@ -32,7 +32,38 @@ type aval struct {
 	bad    string // construct outside the table: the obligation is undecided
 }
 
-type apiece struct{ lo, hi float64 }
+// apiece is an interval of inputs. Values are computed over its closed hull [lo,hi] (a sound over-approximation);
+// loOpen / hiOpen record that the bound itself is excluded, which only matters for deciding that a piece is empty:
+// the false branch of `x >= k` is [lo,k), and `x < k` is never false on it.
+type apiece struct {
+	lo, hi         float64
+	loOpen, hiOpen bool
+}
+
+func (q apiece) empty() bool {
+	return q.lo > q.hi || (q.lo == q.hi && (q.loOpen || q.hiOpen))
+}
+
+// below is q ∩ (-inf,k) (open) or q ∩ (-inf,k]; above is q ∩ (k,inf) (open) or q ∩ [k,inf).
+func (q apiece) below(k float64, open bool) apiece {
+	switch {
+	case k < q.hi:
+		q.hi, q.hiOpen = k, open
+	case k == q.hi:
+		q.hiOpen = q.hiOpen || open
+	}
+	return q
+}
+
+func (q apiece) above(k float64, open bool) apiece {
+	switch {
+	case k > q.lo:
+		q.lo, q.loOpen = k, open
+	case k == q.lo:
+		q.loOpen = q.loOpen || open
+	}
+	return q
+}
 
 // abind is what a local of the closure is bound to at one program point: the
 // expression assigned to it together with the bindings that were in force at
@@ -73,8 +104,11 @@ type absInterp struct {
 	info  *types.Info
 	input types.Object
 	fset  *token.FileSet
-	lit   *ast.FuncLit
+	body  *ast.BlockStmt // the body of the interpreted function (a function literal or a declared function)
+	decls helperDecls    // the declared functions of the package, for calls of pure helpers (robust_c18.go)
 	depth int
+	// exits collects, per label of an enclosing `L: for { ... }` block, the states in which `break L` is executed
+	exits map[types.Object]*[]astate
 }
 
 func flip(m int) int {
@@ -172,6 +206,10 @@ func (ai *absInterp) eval(e ast.Expr, p apiece, env aenv) aval {
 			f, _ := constant.Float64Val(tv.Value)
 			return aval{lo: f, hi: f, mono: monoConst}
 		}
+		// the transfer functions below are those of real (floating-point) arithmetic
+		if tv, ok := ai.info.Types[x]; ok && tv.Type != nil && !isFloatType(tv.Type) {
+			return aval{bad: "non-constant arithmetic of type " + tv.Type.String() + " (" + types.ExprString(x) + ")"}
+		}
 		a, b := ai.eval(x.X, p, env), ai.eval(x.Y, p, env)
 		if a.bad != "" {
 			return a
@@ -197,7 +235,7 @@ func (ai *absInterp) eval(e ast.Expr, p apiece, env aenv) aval {
 			lo, hi, nan := mulBounds(a, b)
 			r := aval{lo: lo, hi: hi, nan: a.nan || b.nan || nan}
 			// square idiom: e*e with structurally equal operands
-			if types.ExprString(x.X) == types.ExprString(x.Y) {
+			if types.ExprString(x.X) == types.ExprString(x.Y) || ai.sameValue(x.X, env, x.Y, env) {
 				sq := aval{lo: 0, hi: math.Max(a.lo*a.lo, a.hi*a.hi), nan: a.nan}
 				switch {
 				case a.lo >= 0:
@@ -240,19 +278,24 @@ func (ai *absInterp) eval(e ast.Expr, p apiece, env aenv) aval {
 			}
 			return r
 		case token.QUO:
-			// soft-sign idiom e/(c+|e|), c>0: increasing in e, range (-1,1)
-			if den, ok := unparen(x.Y).(*ast.BinaryExpr); ok && den.Op == token.ADD {
-				for _, pr := range [][2]ast.Expr{{den.X, den.Y}, {den.Y, den.X}} {
-					cst := ai.eval(pr[0], p, env)
-					if call, ok := unparen(pr[1]).(*ast.CallExpr); ok && ai.isMathFunc(call.Fun, "Abs") && cst.bad == "" && cst.mono == monoConst && cst.lo > 0 &&
-						types.ExprString(call.Args[0]) == types.ExprString(x.X) {
-						f := func(v float64) float64 {
-							if math.IsInf(v, 0) {
-								return math.Copysign(1, v)
+			// soft-sign idiom e/(c+|e|), c>0: increasing in e, range (-1,1). The denominator, its absolute-value
+			// operand and the numerator are taken by value, not by spelling: locals are followed to the expressions
+			// they are bound to, and |.|'s argument must denote the same function of the input as the numerator.
+			if dx, denv := ai.resolve(x.Y, env); dx != nil {
+				if den, ok := dx.(*ast.BinaryExpr); ok && den.Op == token.ADD {
+					for _, pr := range [][2]ast.Expr{{den.X, den.Y}, {den.Y, den.X}} {
+						cst := ai.eval(pr[0], p, denv)
+						cx, cenv := ai.resolve(pr[1], denv)
+						if call, ok := cx.(*ast.CallExpr); ok && len(call.Args) == 1 && ai.isMathFunc(call.Fun, "Abs") && cst.bad == "" && cst.mono == monoConst && !cst.nan && cst.lo > 0 &&
+							ai.sameValue(call.Args[0], cenv, x.X, env) {
+							f := func(v float64) float64 {
+								if math.IsInf(v, 0) {
+									return math.Copysign(1, v)
+								}
+								return v / (cst.lo + math.Abs(v))
 							}
-							return v / (cst.lo + math.Abs(v))
+							return aval{lo: f(a.lo), hi: f(a.hi), mono: a.mono, nan: a.nan}
 						}
-						return aval{lo: f(a.lo), hi: f(a.hi), mono: a.mono, nan: a.nan}
 					}
 				}
 			}
@@ -350,9 +393,66 @@ func (ai *absInterp) eval(e ast.Expr, p apiece, env aenv) aval {
 		if tv, ok := ai.info.Types[x.Fun]; ok && tv.IsType() && len(x.Args) == 1 {
 			return ai.eval(x.Args[0], p, env)
 		}
+		// call of a pure straight-line helper of the package: its result expression under the parameter bindings
+		if rx, renv, ok := pureHelperCall(ai.info, ai.decls, x, env); ok {
+			for _, arg := range x.Args {
+				if a := ai.eval(arg, p, env); a.bad != "" {
+					return a
+				}
+			}
+			ai.depth++
+			defer func() { ai.depth-- }()
+			if ai.depth > 200 {
+				return aval{bad: "helper calls nested too deeply"}
+			}
+			return ai.eval(rx, p, renv)
+		}
 		return aval{bad: "call " + types.ExprString(x.Fun) + " is outside the transfer-function table"}
 	}
 	return aval{bad: fmt.Sprintf("expression %s (%T) is outside the transfer-function table", types.ExprString(e), e)}
+}
+
+// resolve follows parentheses and locals to the expression that defines the value of e, and returns it with the
+// bindings it has to be read under (nil when a local is bound to a constant supplied from outside or the chain is
+// too long). The closure's locals are single-valued at every program point of one state, so the defining
+// expression denotes the same value as e.
+func (ai *absInterp) resolve(e ast.Expr, env aenv) (ast.Expr, aenv) {
+	for n := 0; n < 50; n++ {
+		e = unparen(e)
+		id, ok := e.(*ast.Ident)
+		if !ok {
+			return e, env
+		}
+		obj := ai.info.Uses[id]
+		if obj == nil || obj == ai.input {
+			return e, env
+		}
+		b, ok := env[obj]
+		if !ok {
+			return e, env
+		}
+		if b.konst != nil {
+			return nil, nil
+		}
+		e, env = b.expr, b.env
+	}
+	return nil, nil
+}
+
+// sameValue reports whether expression a read under envA and expression b read under envB denote the same
+// function of the input: both have an algebraic normal form (symnf.go) and the two forms are equal. Only pure
+// expressions have a normal form (arithmetic, constants, the input, math.Exp/Tanh/Sin/Abs/Pow), so equal forms
+// mean equal values.
+func (ai *absInterp) sameValue(a ast.Expr, envA aenv, b ast.Expr, envB aenv) bool {
+	na, err := (&nfBuilder{info: ai.info, input: ai.input, env: envA, decls: ai.decls}).build(a)
+	if err != nil {
+		return false
+	}
+	nb, err := (&nfBuilder{info: ai.info, input: ai.input, env: envB, decls: ai.decls}).build(b)
+	if err != nil {
+		return false
+	}
+	return nfEqual(na, nb)
 }
 
 func unparen(e ast.Expr) ast.Expr {
@@ -423,36 +523,26 @@ func (ai *absInterp) split(c ast.Expr, p apiece, env aenv) (t, f []apiece, bad s
 				return nil, nil, "condition " + types.ExprString(c) + " does not compare the input with a constant"
 			}
 			k := cv.lo
-			below := apiece{p.lo, math.Min(p.hi, k)}
-			above := apiece{math.Max(p.lo, k), p.hi}
-			pt := apiece{k, k}
-			nonEmpty := func(q apiece) bool { return q.lo <= q.hi }
+			keep := func(qs ...apiece) (out []apiece) {
+				for _, q := range qs {
+					if !q.empty() {
+						out = append(out, q)
+					}
+				}
+				return out
+			}
 			switch op {
-			case token.LSS, token.LEQ:
-				if nonEmpty(below) && !(op == token.LSS && below.lo == k && below.hi == k) {
-					t = append(t, below)
-				}
-				if nonEmpty(above) {
-					f = append(f, above)
-				}
-			case token.GTR, token.GEQ:
-				if nonEmpty(above) && !(op == token.GTR && above.lo == k && above.hi == k) {
-					t = append(t, above)
-				}
-				if nonEmpty(below) {
-					f = append(f, below)
-				}
+			case token.LSS:
+				t, f = keep(p.below(k, true)), keep(p.above(k, false))
+			case token.LEQ:
+				t, f = keep(p.below(k, false)), keep(p.above(k, true))
+			case token.GTR:
+				t, f = keep(p.above(k, true)), keep(p.below(k, false))
+			case token.GEQ:
+				t, f = keep(p.above(k, false)), keep(p.below(k, true))
 			case token.EQL, token.NEQ:
-				var eq, ne []apiece
-				if k >= p.lo && k <= p.hi {
-					eq = append(eq, pt)
-				}
-				if p.lo < k {
-					ne = append(ne, apiece{p.lo, math.Min(p.hi, k)})
-				}
-				if p.hi > k {
-					ne = append(ne, apiece{math.Max(p.lo, k), p.hi})
-				}
+				eq := keep(p.below(k, false).above(k, false))
+				ne := keep(p.below(k, true), p.above(k, true))
 				if op == token.EQL {
 					t, f = eq, ne
 				} else {
@@ -468,11 +558,19 @@ func (ai *absInterp) split(c ast.Expr, p apiece, env aenv) (t, f []apiece, bad s
 				case ai.isMathFunc(x.Fun, "IsNaN"):
 					return nil, []apiece{p}, "" // the domain holds no NaN
 				case ai.isMathFunc(x.Fun, "Signbit"):
+					// true on the negative inputs and -0, false on +0 and the positive inputs; a bound excluded by an
+					// earlier comparison with 0 (which does not tell the two zeros apart) stays excluded
 					if p.lo <= 0 {
-						t = append(t, apiece{p.lo, math.Min(p.hi, math.Copysign(0, -1))})
+						q := apiece{lo: p.lo, hi: math.Min(p.hi, math.Copysign(0, -1)), loOpen: p.loOpen, hiOpen: p.hiOpen && p.hi <= 0}
+						if !q.empty() {
+							t = append(t, q)
+						}
 					}
 					if p.hi >= 0 {
-						f = append(f, apiece{math.Max(p.lo, 0), p.hi})
+						q := apiece{lo: math.Max(p.lo, 0), hi: p.hi, loOpen: p.loOpen && p.lo >= 0, hiOpen: p.hiOpen}
+						if !q.empty() {
+							f = append(f, q)
+						}
 					}
 					return t, f, ""
 				}
@@ -508,10 +606,10 @@ func (ai *absInterp) isInput(e ast.Expr, env aenv) bool {
 	return false
 }
 
-// local reports whether obj is declared inside the closure (and is not its input): only such variables may be
+// local reports whether obj is declared inside the function's body (and is not its input): only such variables may be
 // assigned, anything else is state that outlives one activation.
 func (ai *absInterp) local(obj types.Object) bool {
-	return obj != nil && obj != ai.input && ai.lit != nil && obj.Pos() >= ai.lit.Body.Pos() && obj.Pos() < ai.lit.End()
+	return obj != nil && obj != ai.input && ai.body != nil && obj.Pos() >= ai.body.Pos() && obj.Pos() < ai.body.End()
 }
 
 // run evaluates the statements from every state in `in`; the states in which control reaches the end of the
@@ -715,6 +813,40 @@ func (ai *absInterp) step(s ast.Stmt, st astate, out *[]aresult) (fall []astate,
 			fall = append(fall, in...)
 		}
 		return fall, ""
+	case *ast.LabeledStmt:
+		// `L: for { body }` without init, condition and post statement, left only by `break L` (or a return): the
+		// block form the source normalisation gives to an inlined helper. The body runs once from the state before
+		// it; control continues after the loop in the states that execute `break L`. A state that reaches the end
+		// of the body would start another iteration - that is a real loop and outside the table.
+		fs, ok := x.Stmt.(*ast.ForStmt)
+		lbl := ai.info.Defs[x.Label]
+		if !ok || fs.Init != nil || fs.Cond != nil || fs.Post != nil || lbl == nil {
+			return nil, "labelled statement other than a `for { ... }` block"
+		}
+		var exits []astate
+		if ai.exits == nil {
+			ai.exits = map[types.Object]*[]astate{}
+		}
+		ai.exits[lbl] = &exits
+		again, b := ai.run(fs.Body.List, []astate{st}, out)
+		delete(ai.exits, lbl)
+		if b != "" {
+			return nil, b
+		}
+		for _, a := range again {
+			if !a.p.empty() {
+				return nil, "a loop whose body can run more than once"
+			}
+		}
+		return exits, ""
+	case *ast.BranchStmt:
+		if x.Tok == token.BREAK && x.Label != nil {
+			if c := ai.exits[ai.info.Uses[x.Label]]; c != nil {
+				*c = append(*c, st)
+				return nil, ""
+			}
+		}
+		return nil, "branch statement " + x.Tok.String() + " outside the table"
 	}
 	return nil, fmt.Sprintf("statement %T is outside the table", s)
 }
@@ -724,22 +856,33 @@ func isFloatType(t types.Type) bool {
 	return ok && b.Info()&types.IsFloat != 0
 }
 
-// analyseScalar interprets a scalar activation closure over [-1e300, 1e300]. bind gives the constants that
-// variables captured from a closure factory are known to hold (nil for a plain function literal).
-func analyseScalar(info *types.Info, lit *ast.FuncLit, bind aenv) (res []aresult, ai *absInterp, bad string) {
-	if lit.Type.Params == nil || len(lit.Type.Params.List) == 0 || len(lit.Type.Params.List[0].Names) == 0 {
+// analyseScalar interprets a scalar activation function (the type and body of a function literal or of a declared
+// function) over [-1e300, 1e300]. bind gives the constants that variables captured from a closure factory are known
+// to hold (nil for a plain function). The input is the first parameter; when it is blank or unnamed the body cannot
+// mention it, and the function is interpreted as one that ignores its input.
+func analyseScalar(info *types.Info, decls helperDecls, ftype *ast.FuncType, body *ast.BlockStmt, bind aenv) (res []aresult, ai *absInterp, bad string) {
+	if ftype == nil || body == nil || ftype.Params == nil || len(ftype.Params.List) == 0 {
 		return nil, nil, "no input parameter"
 	}
-	ai = &absInterp{info: info, input: info.Defs[lit.Type.Params.List[0].Names[0]], lit: lit}
+	var input types.Object
+	if first := ftype.Params.List[0]; len(first.Names) > 0 && first.Names[0].Name != "_" {
+		input = info.Defs[first.Names[0]]
+		if input == nil {
+			return nil, nil, "the input parameter does not resolve"
+		}
+	} else {
+		input = types.NewVar(token.NoPos, nil, "_", types.Typ[types.Float64]) // identical to no identifier of the body
+	}
+	ai = &absInterp{info: info, input: input, body: body, decls: decls}
 	if bind == nil {
 		bind = aenv{}
 	}
-	ft, b := ai.run(lit.Body.List, []astate{{apiece{-1e300, 1e300}, bind}}, &res)
+	ft, b := ai.run(body.List, []astate{{apiece{lo: -1e300, hi: 1e300}, bind}}, &res)
 	if b != "" {
 		return nil, ai, b
 	}
 	for _, st := range ft {
-		if st.p.lo <= st.p.hi {
+		if !st.p.empty() {
 			return nil, ai, "control can reach the end of the function without a return"
 		}
 	}
